@@ -56,7 +56,10 @@ type family struct {
 	DefaultMutex string
 	Guard        map[string]fieldCfg
 	Immutable    map[string]bool
-	Inner        bool // not thread-safe by itself: only "does the method mutate" is computed
+	Inner        bool            // not thread-safe by itself: only "does the method mutate" is computed
+	Private      map[string]bool // fields of a thread-confined object that are its own (not shared, not checked)
+	Confined     bool            // the object itself is used by one goroutine; only what its guarded fields point to is shared
+	Follow       map[string]bool // families whose EXPORTED methods are followed when called on a field/local (sub-objects of this one)
 
 	// derived
 	mutexes map[string]bool                     // mutex field name -> is RWMutex
@@ -84,8 +87,16 @@ var families = []*family{
 		},
 		// onDrop/close/drop: callbacks fixed at construction; parentSnap: fixed at construction
 		Immutable: map[string]bool{"onDrop": true, "close": true, "drop": true, "parentSnap": true}},
+	// the merged iterator: a thread-confined object that aliases the store's overlay tree (`tree`) and read lock
+	// (`lock`); everything else in it is its own cursor state
+	{Key: "flushiter", Dir: "kvdb/flushable", Types: []string{"flushableIterator"}, Report: []string{"flushableIterator"},
+		DefaultMutex: "lock", Confined: true,
+		Guard: map[string]fieldCfg{"tree": {Pointee: "ro:rbt"}},
+		Private: map[string]bool{"key": true, "val": true, "prevKey": true, "parentIt": true, "parentOk": true,
+			"treeNode": true, "treeOk": true, "start": true, "prefix": true}},
 	{Key: "syncedpool", Dir: "kvdb/flushable", Types: []string{"SyncedPool"}, Report: []string{"SyncedPool"},
 		DefaultMutex: "Mutex",
+		Follow:       map[string]bool{"flushable": true}, // the pooled stores
 		Guard: map[string]fieldCfg{
 			"wrappers":    {Mutex: "Mutex"},
 			"queuedDrops": {Mutex: "queuedDropsMu"},
@@ -284,7 +295,7 @@ func (f *family) resolveAny(name string) (*ast.FuncDecl, string) {
 }
 
 func (f *family) guardOf(field string) (fieldCfg, bool) {
-	if f.Immutable[field] {
+	if f.Immutable[field] || f.Private[field] {
 		return fieldCfg{}, false
 	}
 	if !f.fields[field] {
@@ -613,9 +624,9 @@ func (sc *scan) resolveForeign(prefix string, names []*ast.Ident) resolved {
 				return resolved{kind: "field", owner: prefix, fam: f, name: n.Name, cfg: cfg, rest: names[i+1:]}
 			}
 			// unexported methods of any scanned type (they expect the caller to hold the lock), and exported
-			// methods of ANOTHER object family (self-locking: each call is one critical section of that object,
-			// which is what tells whether a function touches several sub-objects atomically)
-			if last && (!isExported(n.Name) || (sc.topFam != nil && sc.curFam == sc.topFam && f != sc.topFam && !f.Inner)) {
+			// methods of a SUB-OBJECT family (`Follow`; self-locking: each call is one critical section of that
+			// object, which is what tells whether a function touches several sub-objects atomically)
+			if last && (!isExported(n.Name) || (sc.topFam != nil && sc.curFam == sc.topFam && sc.topFam.Follow[f.Key])) {
 				if m, mt := f.resolveAny(n.Name); m != nil {
 					return resolved{kind: "method", owner: prefix, fam: f, name: n.Name, method: m, mtyp: mt}
 				}
@@ -667,6 +678,9 @@ func (sc *scan) expr(st lockState, fr *frame, e ast.Expr, write bool) {
 			}
 		}
 	case *ast.StarExpr:
+		if id, ok := t.X.(*ast.Ident); ok && write && fr.fam != nil && id.Name == fr.recv && fr.fam.Confined {
+			return // resetting a thread-confined object: its own fields only
+		}
 		if id, ok := t.X.(*ast.Ident); ok && write && fr.fam != nil && id.Name == fr.recv {
 			// *recv = T{} : every guarded field (and the mutexes themselves) overwritten
 			for m := range fr.fam.mutexes {
